@@ -9,7 +9,11 @@ LEVEL_TEXT = ("AuthInternal.tla transcribes Authenticate/authenticateWithUser/ma
               "iff-formula of the property over ground-truth tables for CIDR containment, regexp-found-in-path and hash "
               "match (layer 2); TLC proves layer 1 |= layer 2 on four bounded profiles (all 1-user lists per aspect, "
               "all 2-user lists of an 18-entry universe) and emits every (user list, request) as a case that the real "
-              "auth.Manager decides; random configurations are judged by TLC from atoms the harness computes on its own")
+              "auth.Manager decides; random configurations are judged by TLC from atoms the harness computes on its own; "
+              "AuthReload.tla models the scan against a concurrent ReloadInternalUsers (decision = decision for ONE list "
+              "configured between call and return): its schedules are replayed with the reload requested from inside "
+              "the scan (CustomVerifyFunc), the reload goroutine observed returned or parked on the mutex, plus a "
+              "concurrent stress (thorough: under the race detector), all judged by the same formula")
 LEVEL_NOTE = ("bounded token tables; random runs sample the rest; a supplied token is not counted as a credential of the "
               "internal method; '~X' equal to the request path and IPv4 clients vs. IPv6 prefixes covering ::ffff:0:0/96 "
               "are left open (statement ambiguous)")
